@@ -118,6 +118,22 @@ Definition from_parts (dim : N) (ps vs : list N) : option (N * list (N * N)) :=
   if existsb (fun pv => N.leb dim (fst pv)) pairs then None
   else Some (dim, sort_pairs (filter (fun pv => negb (f32_is_zero (snd pv))) pairs)).
 
+(* SparseVector::try_set(index, value) on a sorted pair list: index >= dimension is refused; value == 0.0 removes
+   the entry (or does nothing), any other value replaces or inserts it at its sorted place *)
+Fixpoint sv_set_pairs (l : list (N * N)) (i v : N) : list (N * N) :=
+  match l with
+  | [] => if f32_is_zero v then [] else [(i, v)]
+  | (p, x) :: r =>
+      if N.ltb i p then (if f32_is_zero v then l else (i, v) :: l)
+      else if N.eqb i p then (if f32_is_zero v then r else (i, v) :: r)
+      else (p, x) :: sv_set_pairs r i v
+  end.
+Definition sv_set (s : N * list (N * N)) (i v : N) : option (N * list (N * N)) :=
+  if N.leb (fst s) i then None else Some (fst s, sv_set_pairs (snd s) i v).
+(* get(index): binary search for the position; 0.0 when absent (on a sorted list: the stored value) *)
+Definition sv_get (s : N * list (N * N)) (i : N) : N :=
+  match find (fun pv => N.eqb (fst pv) i) (snd s) with Some pv => snd pv | None => 0 end.
+
 (* tensor_compress::format::decompress_vector, VectorSparse arm, on an ARBITRARY (possibly forged) position
    list: dense = vec![0.0; dimension]; for each zipped (position, value): if position < dimension then
    dense[position] = value.  Unsorted, repeated and out-of-range positions are legal inputs: later pairs
